@@ -468,20 +468,45 @@ class Server(_Server_):
             util.debug('%r callable returned object with id %r', typeid, ident)
 
             self.id_to_obj[ident] = (obj, set(exposed), method_to_typeid)
-            if ident not in self.id_to_refcount:
-                self.id_to_refcount[ident] = 0
+            # Hold one reference until the proxy made below holds its own. `obj` may be
+            # hosted already (`managed` called again for the same object); without this,
+            # another thread dropping the last existing proxy right now would dispose of
+            # the entry before the new proxy has registered itself.
+            self.id_to_refcount[ident] = self.id_to_refcount.get(ident, 0) + 1
 
-        return self._make_proxy(typeid, proxytype, ident, tuple(exposed))
+        try:
+            return self._make_proxy(typeid, proxytype, ident, tuple(exposed))
+        finally:
+            self.decref(c, ident)
 
     def incref(self, c, ident):
         with self.mutex:
             self.id_to_refcount[ident] += 1
 
     def decref(self, c, ident):
-        assert (
-            ident in self.id_to_refcount
-        )  # disable the use of `self.id_to_local_proxy_obj`
-        super().decref(c, ident)
+        # Unlike the standard version, this removes the object from `id_to_obj` in the same
+        # critical section that takes the reference count to zero. The standard two-step
+        # removal leaves a window in which `create` can host the same object again (same id)
+        # and then have its fresh entry wiped out by the second step.
+        # `self.id_to_local_proxy_obj` is not used.
+        with self.mutex:
+            if self.id_to_refcount[ident] <= 0:
+                raise AssertionError(
+                    'Id {0!s} ({1!r}) has refcount {2:n}, not 1+'.format(
+                        ident, self.id_to_obj[ident], self.id_to_refcount[ident]
+                    )
+                )
+            self.id_to_refcount[ident] -= 1
+            if self.id_to_refcount[ident] > 0:
+                return
+            del self.id_to_refcount[ident]
+            entry = self.id_to_obj.pop(ident)
+            util.debug('disposing of obj with id %r', ident)
+
+        # Let go of the object outside of the critical section: if it contains other proxies
+        # (e.g. a managed list of managed lists), their finalizers call `decref`
+        # and acquire the mutex.
+        del entry
 
 
 class ServerProcess(BaseManager):
